@@ -75,6 +75,7 @@ async fn exec_async(case: Arc<Case>) -> CaseResult {
             }
         };
         let mut sent: BTreeMap<Vec<u8>, usize> = BTreeMap::new();
+        let mut non_minimal = 0usize;
         let recv_task = {
             let conn = conn.clone();
             let slow = case.slow_receiver;
@@ -99,7 +100,14 @@ async fn exec_async(case: Arc<Case>) -> CaseResult {
             let p = content(len, *seed, i);
             // own session, and occasionally a datagram for a session that does not exist
             let target = if seed % 7 == 3 { session + 4 } else { session };
-            if raw_conn.send_datagram(refcodec::enc_datagram(target, &p).into()).is_ok() && target == session {
+            // the quarter stream id may legally use a longer varint than necessary
+            let width = [1usize, 2, 4, 8][(*seed as usize / 8) % 4].max(refcodec::varint_len(target / 4));
+            let mut wire_bytes = refcodec::enc_varint_width(target / 4, width);
+            wire_bytes.extend_from_slice(&p);
+            if width > refcodec::varint_len(target / 4) {
+                non_minimal += 1;
+            }
+            if raw_conn.send_datagram(wire_bytes.into()).is_ok() && target == session {
                 *sent.entry(p).or_insert(0) += 1;
             }
             if i % 8 == 7 {
@@ -130,7 +138,11 @@ async fn exec_async(case: Arc<Case>) -> CaseResult {
                 return viol("C03:altered", format!("received {n} datagram(s) with payload {} but the peer sent {s} such payload(s) for this session", short(p)));
             }
         }
-        return CaseResult::Pass { nontrivial: delivered_nonempty, labels: vec!["dir:raw-to-wt"] };
+        let mut labels = vec!["dir:raw-to-wt"];
+        if non_minimal > 0 && delivered_nonempty {
+            labels.push("non-minimal-quarter-id");
+        }
+        return CaseResult::Pass { nontrivial: delivered_nonempty, labels };
     }
     // --- wt sender
     let (sender, receiver_wt, raw_side, session, _keep): (Connection, Option<Connection>, Option<quinn::Connection>, u64, Box<dyn std::any::Any + Send>) = if case.direction % 3 == 0 {
@@ -373,6 +385,21 @@ pub fn test_hook(session: u64, p: &[u8]) -> Result<(), (String, String)> {
     if hs != refcodec::varint_len(session / 4) {
         return Err(("C03:hook:header-size".into(), format!("header size {hs} for session {session}")));
     }
+    // every wider (non-minimal) encoding of the quarter stream id carries the same payload
+    for w in [2usize, 4, 8] {
+        if w > refcodec::varint_len(session / 4) {
+            let mut wide = refcodec::enc_varint_width(session / 4, w);
+            wide.extend_from_slice(p);
+            match wtransport::verif_hooks::datagram_read(wide.into()) {
+                Ok(d) => {
+                    if d.session_id() != sid || d.payload()[..] != p[..] || &d[..] != p {
+                        return Err(("C03:hook:decode-wide".into(), format!("datagram whose quarter id {} is encoded on {w} bytes is delivered with session {} and payload {} (sent {})", session / 4, d.session_id().into_u64(), short(&d.payload()), short(p))));
+                    }
+                }
+                Err(e) => return Err(("C03:hook:decode-wide".into(), format!("datagram with a {w}-byte quarter id rejected: {e:?}"))),
+            }
+        }
+    }
     match wtransport::verif_hooks::datagram_read(wire) {
         Ok(d) => {
             if d.session_id() != sid || d.payload()[..] != p[..] || &d[..] != p {
@@ -433,7 +460,7 @@ pub fn run(run: &Run) {
         |c| judge(|| exec(c), false, "C03:hang"),
         |c| serde_json::to_value(c).unwrap(),
     );
-    for l in ["L<=16", "L:mid", "L:65535", "L:disabled", "dir:wt-to-wt", "dir:wt-to-raw", "dir:raw-to-wt", "probe:max/max+1", "delivered", "relay"] {
+    for l in ["L<=16", "L:mid", "L:65535", "L:disabled", "dir:wt-to-wt", "dir:wt-to-raw", "dir:raw-to-wt", "probe:max/max+1", "delivered", "relay", "non-minimal-quarter-id"] {
         run.essential(l);
     }
 }
